@@ -391,6 +391,7 @@ def _breakdown(db, chk, m):
     enum = m.enum_members("CPEdgeType")
     tbl = {"KERNEL_KERNEL_DELAY": "gpu_kernel_kernel_overhead", "KERNEL_LAUNCH_DELAY": "gpu_kernel_launch_overhead", "DEPENDENCY": "", "SYNC_DEPENDENCY": ""}
     bad, verdict = [], (None if T.has_opaque(bb) else True)
+    any_false = []
     if verdict:
         for mem, val in sorted(enum.items()):
             for stream in (-1, 7):
@@ -407,6 +408,8 @@ def _breakdown(db, chk, m):
                             return stream
                         if isinstance(y, tuple) and y and y[0] == "re" and "nccl" in T.show(y[2]):
                             return "match" if comm else None
+                        if isinstance(y, tuple) and len(y) == 3 and y[0] == "astype" and "bool" in T.show(y[1]):
+                            return bool(_eval_value(y[2], leaf))          # a truth value cast to bool
                         if isinstance(y, tuple) and y and y[0] in ("notnull", "isinstance"):
                             return True
                         if isinstance(y, tuple) and y and y[0] == "strmatch" and T.is_const(y[3]) and isinstance(y[3][1], str):
@@ -431,12 +434,17 @@ def _breakdown(db, chk, m):
                         bad.append("reads " + T.show(u.args[0])[:90])
                         break
                     if got != want:
+                        if mem == "KERNEL_KERNEL_DELAY" and stream < 0:
+                            continue          # not a realisable state: a kernel-to-kernel delay edge is attributed to the kernel in front of the gap (a device stream)
                         verdict = False
-                        bad.append({"type": mem, "stream": stream, "comm": comm, "got": got, "expected": want})
+                        any_false.append({"type": mem, "stream": stream, "comm": comm, "got": got, "expected": want})
+                        bad.append(any_false[-1])
                 if verdict is None:
                     break
             if verdict is None:
                 break
+    if any_false:
+        verdict, bad = False, any_false          # one realisable cell that evaluated to another class decides, whatever the evaluator could not follow in other cells
     chk.ob(rule, "the bound_by COLUMN of the breakdown realises the documented decision table on all 20 (edge type, host/device, communication) cases", verdict, where, found=bad[:3] or "20 cases agree",
            accepted="delay edges -> overhead class first; host -> cpu_bound; communication kernel -> gpu_communication_bound; else gpu_compute_bound",
            why="testing 'NCCL kernel' before the edge type classes the gap after a collective as communication-bound")
